@@ -117,10 +117,11 @@ def concat_case(draw):
     for t in targets:
         srcs = draw(st.lists(st.sampled_from([t + '_a', t + '_b']), max_size=2, unique=True))
         fields[t] = draw(st.sampled_from([srcs, srcs, None])) if not srcs else srcs
+    follow = draw(st.sampled_from([None, None, None, 'head']))
     target = draw(st.sampled_from([None, {'name': 'merged'}, {'name': 'merged', 'path': 'data/m.csv'},
                                    # 'merge into the first / last one': the target re-uses the name of a selected resource
                                    {'name': names[idxs[0]]}, {'name': names[idxs[-1]]}]))
-    return {'op': 'concat', 'pkg': pkg, 'sel': sel, 'fields': fields, 'target': target}
+    return {'op': 'concat', 'pkg': pkg, 'sel': sel, 'fields': fields, 'target': target, 'follow': follow}
 
 
 @st.composite
@@ -269,8 +270,8 @@ def check(case, ctx):
     tables = gen.tables_of(pkg)
     in_tables = tables
     classes = [op]
-    reject = None
     head_follow = False
+    reject = None
     schema_edit = None
     big = any(len(r['rows']) > 1000 for r in pkg)
     if op == 'concat':
@@ -295,6 +296,17 @@ def check(case, ctx):
             except Exception as e:
                 raise unexpected(e, 'decoy concatenate')
         affected = idxs
+        if case.get('follow') == 'head' and reject is None:
+            # a later step reads only the first row of every resource: the resources behind the concatenated one are
+            # still themselves
+            def first_row_only_c(rows):
+                for r in rows:
+                    yield r
+                    return
+            steps.append(first_row_only_c)
+            exp_rows = [t[:1] for t in exp_rows]
+            head_follow = True
+            classes.append('concat:followed-by-an-early-stopping-step')
     elif op == 'duplicate':
         src = case['source'] if case['source'] is not None else names[0]
         si = names.index(src)
